@@ -352,6 +352,8 @@ FAULTS = {
     "bad-flow-argument": (["await helper (1/0)"], "slide"),
     "too-many-flow-arguments": (["start helper 1 2 3"], "slide"),
     "too-many-flow-arguments-await": (["await helper 1 2 3"], "slide"),
+    "invalid-action-event": (["start UtteranceBotAction(script=None)"], "slide"),
+    "invalid-action-event-await": (["$n = None", "await UtteranceBotAction(script=$n)"], "slide"),
     "one-surplus-flow-argument": (["start helper 1 2"], "slide"),
     "one-surplus-flow-argument-await": (["await helper(1, 2)"], "slide"),
     "bad-if-condition": (["if 1/0", "  send Never1()"], "slide"),
